@@ -9,7 +9,10 @@
 //           synth_fluid = processors [speller, selector, navigator,
 //           express_editor|fluid_editor], segmentors [abc_segmentor,
 //           fallback_segmentor], translators [verif_oracle_translator]
-//           (registered by this executable, see oracle_translator.h).
+//           (registered by this executable, see oracle_translator.h);
+//           synth_punct_express / synth_punct_fluid: the same plus punctuator (after the
+//           speller), punct_segmentor (after abc_segmentor), punct_translator (first) and a
+//           punctuation table with every definition shape.
 //   stock : a copy of <repo>/data/minimal (luna_pinyin, cangjie5) plus the
 //           variants luna_pinyin_fluid / cangjie5_fluid (express_editor replaced
 //           by fluid_editor); user dictionaries disabled by *.custom.yaml so
@@ -66,14 +69,55 @@ static std::string synth_schema(const std::string& id, const std::string& editor
          "menu:\n  page_size: 5\n";
 }
 
+// synth_punct_express / synth_punct_fluid: the stock position of the punctuator in the three chains and a
+// punctuation table with all four definition shapes (+ malformed ones); keep in sync with
+// coq/Eng/Oracle.v: synth_half_shape / synth_full_shape / synth_punct_cfg_gen.
+static std::string synth_punct_schema(const std::string& id, const std::string& editor, bool fluid) {
+  return "schema:\n  schema_id: " + id + "\n  name: " + id + "\n  version: \"1\"\n"
+         "engine:\n  processors:\n    - speller\n    - punctuator\n    - selector\n    - navigator\n    - " + editor + "\n"
+         "  segmentors:\n    - abc_segmentor\n    - punct_segmentor\n    - fallback_segmentor\n"
+         "  translators:\n    - punct_translator\n    - verif_oracle_translator\n"
+         "speller:\n  alphabet: zyxwvutsrqponmlkjihgfedcba\n  delimiter: \" '\"\n"
+         "menu:\n  page_size: 5\n"
+         "punctuator:\n"
+         + std::string(fluid ? "  use_space: true\n  digit_separators: \".:\"\n  digit_separator_action: commit\n"
+                             : "  use_space: false\n") +
+         "  half_shape:\n"
+         "    \",\": \"\xef\xbc\x8c\"\n"
+         "    \".\": [\"\xe3\x80\x82\", \"\xef\xbc\x8e\", \".\"]\n"
+         "    \";\": {commit: \"\xef\xbc\x9b\"}\n"
+         "    \"\\\"\": {pair: [\"\xe2\x80\x9c\", \"\xe2\x80\x9d\"]}\n"
+         "    \"'\": {pair: [\"\xe2\x80\x98\", \"\xe2\x80\x99\"]}\n"
+         "    \"/\": [\"\xe3\x80\x81\", \"/\", \"\xc3\xb7\"]\n"
+         "    \":\": \"\xef\xbc\x9a\"\n"
+         "    \"!\": \"!\"\n"
+         "    \"$\": [\"\xef\xbf\xa5\", \"$\", \"\xe2\x82\xac\", \"\xc2\xa2\"]\n"
+         "    \"~\": [\"~~\", \"\xef\xbd\x9e\"]\n"
+         "    \"#\": []\n"
+         "    \"%\": {pair: [\"%\"]}\n"
+         "    \"^\": {commit: \"\xe2\x80\xa6\xe2\x80\xa6\", pair: [\"a\", \"b\"]}\n"
+         "    \"@\": {}\n"
+         "  full_shape:\n"
+         "    \",\": \"\xef\xbc\x8c\"\n"
+         "    \".\": \"\xef\xbc\x8e\"\n"
+         "    \";\": [\"\xef\xbc\x9b\", \";\"]\n"
+         "    \"\\\"\": {pair: [\"\xef\xbc\x82\", \"\xef\xbc\x82\"]}\n"
+         "    \" \": {commit: \"\xe3\x80\x80\"}\n"
+         "    \"/\": \"\xef\xbc\x8f\"\n"
+         "    \"<\": [\"\xe3\x80\x8a\", \"\xe3\x80\x88\"]\n";
+}
+
 static void prepare(const std::string& shared, const std::string& kind) {
   vh::mkdirs(shared);
   if (kind == "synth") {
     vh::write_file(shared + "/default.yaml",
                    "config_version: \"verif\"\nschema_list:\n  - schema: synth_express\n  - schema: synth_fluid\n"
+                   "  - schema: synth_punct_express\n  - schema: synth_punct_fluid\n"
                    "switcher:\n  caption: \"[verif]\"\n  hotkeys: []\nmenu:\n  page_size: 5\n");
     vh::write_file(shared + "/synth_express.schema.yaml", synth_schema("synth_express", "express_editor"));
     vh::write_file(shared + "/synth_fluid.schema.yaml", synth_schema("synth_fluid", "fluid_editor"));
+    vh::write_file(shared + "/synth_punct_express.schema.yaml", synth_punct_schema("synth_punct_express", "express_editor", false));
+    vh::write_file(shared + "/synth_punct_fluid.schema.yaml", synth_punct_schema("synth_punct_fluid", "fluid_editor", true));
   } else {
     const char* files[] = {"cangjie5.dict.yaml", "cangjie5.schema.yaml", "default.yaml", "essay.txt",
                            "luna_pinyin.dict.yaml", "luna_pinyin.schema.yaml", "symbols.yaml"};
